@@ -318,8 +318,10 @@ func blockOnListChangeWorker(
 		ctx.l.Tracef("waiting for %s to get a list item until %s", keyNameStr(), end.Format(time.StampMilli))
 	}
 
+	verifPoint("blk:before-register", ctx.cs.id, "")
 	ws := blockFn()
 	defer ctx.dsc.ds.leaveListBlock(ws)
+	verifPoint("blk:after-register", ctx.cs.id, "")
 
 	// with notification registered, try operation again immediately
 	output = op()
@@ -335,8 +337,10 @@ func blockOnListChangeWorker(
 			waitTimer := time.NewTimer(timeout)
 			defer waitTimer.Stop()
 
+			verifPoint("blk:before-capture", ctx.cs.id, "")
 			unblockCh := ctx.cs.capture()
 			defer ctx.cs.releaseCapture()
+			verifPoint("blk:before-wait", ctx.cs.id, "")
 
 			select {
 			case reason := <-unblockCh:
@@ -359,11 +363,13 @@ func blockOnListChangeWorker(
 			return
 		}
 
+		verifPoint("blk:after-wake", ctx.cs.id, "")
 		// list element probably exists and the operation will succeed
 		output = op()
 		if output.data != nil {
 			return
 		}
+		verifPoint("blk:retry-failed", ctx.cs.id, "")
 		// a different client obtained the list element before this client could, so try again
 	}
 }
